@@ -141,6 +141,11 @@ class Interp:
         """call any callable value"""
         args = list(args)
         kwargs = dict(kwargs or {})
+        if (any(isinstance(a, ops.LazyShot) for a in args) or any(isinstance(v, ops.LazyShot) for v in kwargs.values())) \
+                and not self.passes_generators_on(f):
+            # models and native code receive the items of a generator expression (it runs now and is used up)
+            args = [a.take_all() if isinstance(a, ops.LazyShot) else a for a in args]
+            kwargs = {k: (v.take_all() if isinstance(v, ops.LazyShot) else v) for k, v in kwargs.items()}
         if isinstance(f, BoundMethod):
             return self.call(f.func, [f.obj] + args, kwargs)
         if isinstance(f, SymMethod):
@@ -182,6 +187,24 @@ class Interp:
             if ops.all_concrete(cargs) and ops.all_concrete(ckw.values()):
                 return self.native(f, cargs, ckw)
         raise Undecided(f"no model for {f!r} with symbolic arguments")
+
+    def passes_generators_on(self, f):
+        """is a generator object handed on as it is (interpreted code, iter/next), or consumed by a model?"""
+        if isinstance(f, (BoundMethod, Closure, functools.partial, types.MethodType)):
+            return True
+        if f is builtins.iter or f is builtins.next:
+            return True
+        try:
+            modelled = f in self.contracts or self.models.get(f) is not None
+        except TypeError:
+            return False
+        if modelled:
+            return False
+        if isinstance(f, types.FunctionType):
+            return is_interpretable(f)
+        if isinstance(f, type):
+            return (f.__module__ or "").split(".")[0] in INTERPRETED_PREFIXES and not issubclass(f, enum.Enum)
+        return False
 
     def native(self, f, args, kwargs):
         try:
